@@ -266,8 +266,24 @@ class Builder:
         cons = self.cons("filter")
         self.tcomment(it.get("tc"), indent, cons)
         head = self._expr_src(it.get("head", []), "expr", cons)
-        f = "pick(%s)" % ", ".join(self.call(c, "filter", cons, shapes=("filter",)) for c in it["calls"])
         pre = ["", "h, ", "n, "][it.get("pf", 0) % 3]
+        if it.get("ml") and len(it["calls"]) >= 2:
+            # the filter list itself spans lines: each call belongs to the line it is written on
+            first = self.call(it["calls"][0], "filter", cons, shapes=("filter",))
+            self.emit(indent + "${" + head + " | " + pre + "pick(" + first + ",")
+            rest = it["calls"][1:]
+            for j, c in enumerate(rest):
+                self.emit(indent + "      " + self.call(c, "filter", cons, shapes=("filter", "filter-ml")) + ("," if j < len(rest) - 1 else ")}"))
+            return
+        if it.get("nlpipe"):
+            # the list starts on a later line than the "|"
+            self.emit(indent + "${" + head + " |")
+            for _ in range(it["nlpipe"] - 1):
+                self.emit("")
+            f = "pick(%s)" % ", ".join(self.call(c, "filter", cons, shapes=("filter", "filter-after-pipe")) for c in it["calls"])
+            self.emit(indent + "   " + pre + f + "}")
+            return
+        f = "pick(%s)" % ", ".join(self.call(c, "filter", cons, shapes=("filter",)) for c in it["calls"])
         self.emit(indent + "${" + head + " | " + pre + f + "}")
 
     # control lines -------------------------------------------------------------
